@@ -1,7 +1,7 @@
 """C03 — heat balance of the process models (kinds S + A)."""
 from .. import poly
 from ..poly import Rat, subst, rename_syms, rewrite
-from ..procmodel import process_functions, evaluate, PM, oracle, field_renamer, is_non_ideal
+from ..procmodel import split_models, process_functions, evaluate, PM, oracle, field_renamer, is_non_ideal
 from ..values import *
 from ..repo import AnalysisError, FuncInfo
 from ..evaluator import analyse, Config
@@ -29,7 +29,7 @@ def run(ck):
     all_models = {}
     for func in funcs:
         ck.analysed_function(func)
-        models = [m for m in evaluate(repo, func, ck.tier) if isinstance(m, PM)]
+        models = split_models(ck, 'H0', func, evaluate(repo, func, ck.tier))
         ck.floor("evaluated paths of %s" % func.qualname, len(models), 6)
         all_models[func.qualname] = models
         ck.analysed["paths"] += len(models)
